@@ -4,7 +4,7 @@
    predicate `e`; `pred e p` is predicate_t applied to one posting (Err = the C++ throws, which
    aborts the report); `total_on e l` says that `e` evaluates without error on every posting of
    `l`.  `subseq`/`merge` are order-preserving sub-sequence and interleaving. *)
-From LedgerV Require Import Base.Prelude Model.Filter Model.Query Proofs.FilterProofs Proofs.QueryProofs.
+From LedgerV Require Import Base.Prelude Gen.LimitCombine Model.Filter Model.Query Proofs.FilterProofs Proofs.QueryProofs.
 From Coq Require Import Permutation.
 Local Open Scope Z_scope.
 
@@ -87,6 +87,99 @@ Print Assumptions limits_compose.
 Theorem no_limit_reports_all : forall l, report_posts [] l = Ok l.
 Proof. exact report_posts_nolimit. Qed.
 Print Assumptions no_limit_reports_all.
+
+(* ---- sequences of limit contributions (--limit, -b, -e, -C, -U, --pending, -R, -L, -c, the -p
+   bounds, the command-line query): every one goes through limit_.on; the accumulated predicate
+   is the left-nested conjunction, so only the SET of conditions matters ---- *)
+
+(* the handler as the translator reads it out of src/report.h and src/option.h on this run:
+   `if (handled) value = "(" + value + ")&(" + str + ")"`, option_t::on assigning the argument when
+   the handler left the value alone, and the fixed conditions of the option shortcuts *)
+Theorem limit_handler_shape :
+  src_limit_guard_handled = true /\ src_on_assigns_when_untouched = true /\
+  (forall value cond, limit_text src_limit_pieces value cond = [40] ++ value ++ [41; 38; 40] ++ cond ++ [41]) /\
+  src_limit_sources =
+    [(ident_name IActual, print_expr (contrib_expr 0 KActual));
+     (ident_name ICleared, print_expr (contrib_expr 0 KCleared));
+     ([99;117;114;114;101;110;116], [100;97;116;101;60;61;116;111;100;97;121]);
+     (ident_name IPending, print_expr (contrib_expr 0 KPending));
+     (ident_name IReal, print_expr (contrib_expr 0 KReal));
+     (ident_name IUncleared, ident_name IUncleared ++ [124] ++ ident_name IPending)] /\
+  src_begin_text = ([100;97;116;101;62;61;91], [93]) /\ src_end_text = ([100;97;116;101;60;91], [93]).
+Proof.
+  split; [reflexivity|]. split; [reflexivity|]. split; [|split; [reflexivity|split; reflexivity]].
+  intros value cond. cbn [src_limit_pieces limit_text Z.eqb fst snd]. cbn [Z.eqb Pos.eqb]. rewrite app_nil_r. reflexivity.
+Qed.
+Print Assumptions limit_handler_shape.
+
+Theorem limit_accumulation_is_conjunction : forall l, limit_acc l = combine_limits l.
+Proof. exact limit_acc_combine. Qed.
+Print Assumptions limit_accumulation_is_conjunction.
+
+Theorem limits_are_intersection : forall es l,
+  Forall (fun e => total_on e l) es ->
+  exists r, report_posts es l = Ok r /\ subseq r l /\
+    forall p, In p r <-> In p l /\
+      forall e, In e es -> exists re, report_posts [e] l = Ok re /\ In p re.
+Proof. exact limits_intersection. Qed.
+Print Assumptions limits_are_intersection.
+
+Theorem limits_order_and_multiplicity_free : forall es es' l,
+  (forall e, In e es <-> In e es') ->
+  Forall (fun e => total_on e l) es -> Forall (fun e => total_on e l) es' ->
+  report_posts es l = report_posts es' l.
+Proof. exact limits_same_set. Qed.
+Print Assumptions limits_order_and_multiplicity_free.
+
+Theorem limits_commute : forall es es' l,
+  Permutation es es' -> Forall (fun e => total_on e l) es -> report_posts es l = report_posts es' l.
+Proof. exact limits_permutation. Qed.
+Print Assumptions limits_commute.
+
+Theorem limit_repeated_is_idempotent : forall es1 es2 e l,
+  In e (es1 ++ es2) -> Forall (fun x => total_on x l) (es1 ++ es2) ->
+  report_posts (es1 ++ e :: es2) l = report_posts (es1 ++ es2) l.
+Proof. exact limits_repeat. Qed.
+Print Assumptions limit_repeated_is_idempotent.
+
+Theorem option_sequence_order_free : forall now opts opts' period query l,
+  (forall k, In k opts <-> In k opts') ->
+  Forall (fun e => total_on e l) (all_limits now opts period query) ->
+  report_with now opts period query l = report_with now opts' period query l.
+Proof. exact option_sequence_lemma. Qed.
+Print Assumptions option_sequence_order_free.
+
+Theorem option_conditions_never_fail : forall today k l,
+  match k with KLimit e => total_on e l | _ => True end -> total_on (contrib_expr today k) l.
+Proof. exact contrib_total. Qed.
+Print Assumptions option_conditions_never_fail.
+
+(* --cleared -b D --cleared keeps the begin date: the sequence A, B, A selects what A, B selects *)
+Example repeated_option_example : forall now tb d l,
+  report_with now [KCleared; KBegin tb d; KCleared] (None, None) None l =
+  report_with now [KCleared; KBegin tb d] (None, None) None l.
+Proof.
+  intros. apply option_sequence_lemma.
+  - intros k. cbn [In]. tauto.
+  - repeat constructor; try apply total_begin; intros p _; eexists; reflexivity.
+Qed.
+
+(* ---- finding F95: `today` is report_t::terminus, and -e / --end overwrites terminus with its own
+   date (report.h:667), so under -c -e D the condition of -c becomes date<=D: "what -c -e D
+   selects is among what -c selects alone" is FALSE of the faithful model.  Witness: --now on
+   day 10, -e on day 20, a posting dated day 15 - reported, although it lies after today. ---- *)
+Theorem current_with_end_refuted :
+  exists now tc te d l p r r',
+    report_with now [KCurrent tc; KEnd te d] (None, None) None l = Ok r /\ In p r /\
+    report_with now [KCurrent tc] (None, None) None l = Ok r' /\ ~ In p r'.
+Proof.
+  exists 10, [], [], 20.
+  exists [mkP 1 [65] [66] None None None [] [] (mkA 1 []) None 15 SUncleared false].
+  eexists. eexists. eexists.
+  split; [vm_compute; reflexivity|]. split; [left; reflexivity|].
+  split; [vm_compute; reflexivity|]. intros [].
+Qed.
+Print Assumptions current_with_end_refuted.
 
 (* ---- --begin D keeps exactly date >= D, --end D exactly date < D; they are complementary ---- *)
 Theorem begin_end_split : forall tb te d l,
